@@ -63,7 +63,7 @@ def gen_residue(rng, resname):
     if nreal >= 2 and rng.random() < 0.4:
         # virtual site: massless atom type, or (the Martini-3 way) a massive bead type with an explicit
         # mass of 0 in [ atoms ]
-        atoms.append(["V1", rng.choice(["VS", "VS", "VM"]), rng.choice([0.0, 0.0, None])])
+        atoms.append(["V1", rng.choice(["VS", "VM"]), rng.choice([0.0, 0.0, 0.0, None])])
     return dict(resname=resname, atoms=atoms)
 
 
@@ -85,7 +85,7 @@ def gen_case(rng, thorough):
     for t in types[:1]:
         if not any(m[0] == t["name"] for m in molecules):
             molecules[0][0] = t["name"]
-    mode = rng.choice(["box", "box", "dens", "dens", "input", "input", "meta", "both", "input+dens"]
+    mode = rng.choice(["box", "box", "dens", "dens", "dens", "input", "input", "meta", "both", "input+dens"]
                       if rng.random() < 0.97 else ["none"])
     opts = dict(mode=mode)
     length = float(rng.choice([5, 6, 7.5]))
